@@ -470,7 +470,7 @@ def w6(tier, seed):
         out.append({'o': 'btwbad', 'v': v})
         out.append({'o': 'btwbad', 'v': v, 'neg': True})
     # sampled 3/4/6-subsets, token instances mixed in
-    n = 2500 if tier == 'quick' else 25000
+    n = 2500 if tier == 'quick' else 10000
     for _ in range(n):
         k = rnd.choice([3, 3, 4, 4, 6, 9])
         pool = HOSTC if rnd.random() < 0.5 else SIGMA_C
@@ -683,7 +683,7 @@ def programs_for(check, tier, seed, part, nparts):
     mine = [p for i, p in enumerate(progs) if i % nparts == part]
     if check in ('C07', 'C03', 'C20'):
         rnd = random.Random((seed * 1009 + part) * 7 + 1)
-        n = {'quick': 5000, 'thorough': 60000}[tier] // nparts
+        n = {'quick': 5000, 'thorough': 30000}[tier] // nparts
         if check != 'C07':
             n //= 3
         mine += list(w7_random(rnd, n, (1, 2, 3, 4) if tier == 'quick' else (2, 3, 4, 5, 7)))
@@ -697,7 +697,7 @@ def run_shard(ctx):
     if inject is not None:
         inject_order(inject)
     I = ClsInterp(seed)
-    I.scan_all = (tier == 'thorough') and inject is None
+    I.scan_all = bool(ctx.get('scan_all')) and inject is None
     # quick: engine-level scans on a deterministic 1-in-6 sample of emitted texts, in the first hash seed only
     I.scan_sample = inject is None and ctx.get('scan', True)
     t0 = time.time()
@@ -764,12 +764,12 @@ def run_shard(ctx):
 def plan(check, tier, seed, tp):
     """jobs = partitions x hash seeds (+ injected orders); the same partition runs under every seed"""
     jobs = []
-    hss = {'quick': [0, 1, 2], 'thorough': list(range(24))}[tier]
+    hss = {'quick': [0, 1, 2], 'thorough': list(range(12))}[tier]
     nparts = {'quick': 4, 'thorough': 4}[tier]
     for h in hss:
         for p in range(nparts):
-            jobs.append(('p%d.h%d' % (p, h), {'part': p, 'nparts': nparts, 'scan': h == hss[0] or tier == 'thorough'}, h))
-    ninj = {'quick': 1, 'thorough': 24}[tier]
+            jobs.append(('p%d.h%d' % (p, h), {'part': p, 'nparts': nparts, 'scan': h == hss[0], 'scan_all': tier == 'thorough' and h == hss[0]}, h))
+    ninj = {'quick': 1, 'thorough': 12}[tier]
     for k in range(ninj):
         for p in range(nparts):
             jobs.append(('p%d.inj%d' % (p, k), {'part': p, 'nparts': nparts, 'inject': seed * 100 + k + 1}, 0))
